@@ -2,6 +2,7 @@
 package main
 
 import (
+	"encoding/json"
 	"flag"
 	"fmt"
 	"os"
@@ -42,6 +43,21 @@ func main() {
 		for _, w := range worst {
 			fmt.Println(w.seed, w.d)
 		}
+	case "execfile":
+		c := sim.Registry[os.Args[2]]
+		b, _ := os.ReadFile(os.Args[3])
+		var rf sim.ReplayFile
+		if err := json.Unmarshal(b, &rf); err != nil {
+			fmt.Println(err)
+			os.Exit(2)
+		}
+		res := &sim.RunResult{}
+		c.Exec(rf.Scenario, res)
+		for _, v := range res.Violations {
+			fmt.Println("SIG", v.Sig)
+			fmt.Println(v.Msg)
+		}
+		fmt.Println(string(rf.Scenario))
 	case "show":
 		c := sim.Registry[os.Args[2]]
 		seed, _ := strconv.ParseUint(os.Args[3], 10, 64)
